@@ -355,6 +355,7 @@ type PathResult struct {
 	SamplePC   []string
 	Sample     string
 	Panic      string // uncaught target panic at top level
+	Return     string // the harness function's result, if it returns a concrete string (translator validation)
 }
 
 func (a *abortPath) String() string { return a.kind.String() + ": " + a.msg }
@@ -822,7 +823,9 @@ func (p *Program) RunPath(fn *ssa.Function, prefix []Decision, c *smt.Ctx, s *sm
 	for _, pk := range p.HarnessPk {
 		call(i, nil, token.NoPos, pk.Func("init"), nil)
 	}
-	call(i, nil, token.NoPos, fn, nil)
+	if rv, ok := call(i, nil, token.NoPos, fn, nil).(string); ok {
+		res.Return = rv
+	}
 	return res
 }
 
